@@ -64,6 +64,14 @@ CLAIMED = {
             "The lexer's character classes are folded from the type-checked source (match patterns, guards, const-evaluated lookup tables) over every ASCII code point plus representatives of every non-ASCII class and compared with the October 2021 sets; sibling agreement of the string-body states on line terminators; writers of Cursor.index. Thorough tier: the advance() state machine extracted as a transducer and compared with a reference machine of the lexical grammar.",
             "Quick tier decides the tables and the string-body sibling rule, not token boundaries in general; the Cursor primitives are the trusted vocabulary of the thorough tier.",
             "pattern-set evaluation of HIR predicates over a finite character partition; sibling rule over extracted match arms", True),
+    "C06": ("other",
+            "Sibling agreement between the lexer's escape table and the decoder's match arms (each accepted letter pushes the spec's character, none falls into the silent arm), block-string constants/line-splitting/delimiter offsets, and provenance of compiler string values from the decoder.",
+            "Decides the escape tables and structural constants only; BlockStringValue's indentation arithmetic is data-dependent and not decided.",
+            "pattern-set evaluation of match arms + sibling table comparison over HIR; const evaluation", True),
+    "C10": ("other",
+            "Byte-class tables of the Name grammar folded over all 256 bytes (and compared with the lexer's and parser's), shape of is_valid_syntax, who-calls gate on the unchecked constructors (dominating successful check / grammar-matching literal / const-asserted macro), guard of the numeric serde visitors, the slice-pattern language of IntValue::valid_syntax, and the Display templates of Type vs the CST conversion.",
+            "Clause-level: float printing is std behaviour; numeric round trips are not decided; FloatValue::valid_syntax's language is decided only in the thorough tier if at all.",
+            "pattern-set evaluation, dominating-fact (GUARD) who-calls rule, format-template decoding over rustc HIR/MIR", False),
 }
 
 NOT_APPLICABLE = {
